@@ -26,10 +26,15 @@ package c10
 // the directory creation fail.
 
 import (
+	"os"
+	"path/filepath"
 	"regexp"
 	"strings"
+	"sync"
 
 	"pgregory.net/rapid"
+
+	"verifharness/internal/core"
 )
 
 var nameClasses = []string{"ascii", "sql", "no-alnum", "sanitise", "long", "path"}
@@ -41,7 +46,7 @@ func sanitised(name string) string { return sanitiseRe.ReplaceAllString(name, ""
 var noAlnumNames = map[string][]string{
 	"cjk":   {"监听器", "リスナー", "청취자", "监听器①", "слушатель", "ακροατής", "مستمع"},
 	"punct": {"--", "-", "...", "%_", "!", "(*)", "##", "@@", "[]", "+", "'", `"`, "::", "~"},
-	"blank": {" ", "  ", "\t", " \t ", " ", "   "},
+	"blank": {" ", "  ", "\t", " \t ", "\u00a0", "   "},
 	"emoji": {"🚀", "😀😀", "🔥-🔥", "✅", "🇩🇪"},
 	"mixed": {"监听器 ①", "— 监听 —", "🚀 リスナー", "(监听器)", "№ ②", "é-ü", "üï"},
 }
@@ -88,9 +93,42 @@ func genClassName(t *rapid.T, class string, fam int, l string) string {
 	return asciiNameGen.Draw(t, l)
 }
 
-// genProductLSpec: kind and name class drawn independently.
-func genProductLSpec(t *rapid.T, kind string, fam int) *LSpec {
-	l := &LSpec{Kind: kind, NC: rapid.SampledFrom(nameClasses).Draw(t, "name-class")}
+// uniformBits: rapid prefers the ends of integer ranges and the first elements of SampledFrom
+// lists by a wide margin, its Bool is even: n even bits make an even number below 2^n.
+func uniformBits(t *rapid.T, n int, l string) int {
+	v := 0
+	for i := 0; i < n; i++ {
+		v *= 2
+		if rapid.Bool().Draw(t, l) {
+			v++
+		}
+	}
+	return v
+}
+
+// evenClass: one of the six classes, each about as often as the others.
+func evenClass(t *rapid.T) string {
+	v := uniformBits(t, 3, "name-class-bit")
+	if v >= len(nameClasses) {
+		v = uniformBits(t, 3, "name-class-bit2") % len(nameClasses)
+	}
+	return nameClasses[v]
+}
+
+// genProductLSpec: kind and name class drawn independently.  HTTPS is 3/32 of the product's
+// adds where HTTP listeners are allowed at all (every start of such a listener - the add and
+// each restore after a restart - generates an RSA key, ~0.15 s), plain HTTP 2/32.
+func genProductLSpec(t *rapid.T, allowHTTP bool, fam int) *LSpec {
+	kind := "smb"
+	switch v := uniformBits(t, 5, "lkind-bit"); {
+	case v < 3 && allowHTTP:
+		kind = "https"
+	case v < 5 && allowHTTP:
+		kind = "http"
+	case v%2 == 1:
+		kind = "ext"
+	}
+	l := &LSpec{Kind: kind, NC: evenClass(t)}
 	l.Name = genClassName(t, l.NC, fam, "lname")
 	switch kind {
 	case "smb":
@@ -140,4 +178,52 @@ func noAlnumKindOf(name string) string {
 		}
 	}
 	return "other"
+}
+
+// ---------------------------------------------------------------- evidence: the kind x class matrix
+
+var (
+	cellMu    sync.Mutex
+	cellCount = map[string]int{}
+)
+
+// countCells counts, once per evaluated history, the listener adds of the product by
+// "<kind> x <name class>" (adds whose name is already taken do not count) into
+// extra["listener_kind_x_name_class@<shard>"].  The driver keeps the value of the last
+// shard for equal keys and only the 60 most frequent labels, hence one key per shard.
+func countCells(h History) {
+	cellMu.Lock()
+	defer cellMu.Unlock()
+	seen := map[string]bool{}
+	n := 0
+	for _, op := range h.Ops {
+		if op.K != "ladd" || op.L == nil || seen[op.L.Name] {
+			continue
+		}
+		seen[op.L.Name] = true
+		if op.L.NC == "" {
+			continue
+		}
+		n++
+		k := kindOf(*op.L)
+		cellCount[k+" x "+op.L.NC]++
+		switch op.L.NC {
+		case "no-alnum":
+			cellCount[k+" x no-alnum:"+noAlnumKindOf(op.L.Name)]++
+		case "long":
+			if len(sanitised(op.L.Name)) > 255 {
+				cellCount[k+" x long:sanitised>255-bytes"]++
+			} else {
+				cellCount[k+" x long:sanitised<=255-bytes"]++
+			}
+		}
+	}
+	if n == 0 {
+		return
+	}
+	cp := map[string]int{}
+	for k, v := range cellCount {
+		cp[k] = v
+	}
+	core.SetExtra("listener_kind_x_name_class@"+filepath.Base(os.Getenv("VERIF_OUT")), cp)
 }
